@@ -149,7 +149,7 @@ Section Update.
   Definition load_unregistered_manifests (w : world) (l : loader) (path : list N) (verify : bool)
     : res (loader * list (list N)) :=
     '(l1, ed) <- get_file_entry_dict L decompress pgp_verify w l path (Some [TIGNORE]) verify ;;
-    '(_, l2, found) <- walk_unreg (nodes_fuel w) w l1 (pjoin rootdir path) path [] ed [] ;;
+    '(_, l2, found) <- walk_unreg (nodes_fuel w) w l1 (walk_top path) path [] ed [] ;;
     Ok (l2, found).
 
   (* ---- get_deduplicated_file_entry_dict_for_update ----------------------------------------- *)
@@ -400,7 +400,7 @@ Section Update.
         '(l1, new_manifests) <- load_unregistered_manifests w l path false ;;
         '(l2, ed) <- get_dedup_dict w l1 path false ;;
         let stk := rev (map (fun kdv => (fst (fst kdv), snd (fst kdv))) (iter_manifests l2 path false)) in
-        s <- walk_update (nodes_fuel w) w (pjoin rootdir path) path new_manifests hs last_mtime (mk_us l2 ed stk []) ;;
+        s <- walk_update (nodes_fuel w) w (walk_top path) path new_manifests hs last_mtime (mk_us l2 ed stk []) ;;
         (* entries whose file was not met: removed (IGNORE entries stay) *)
         fold_left (fun (acc : res loader) pe =>
           l0 <- acc ;;
